@@ -44,9 +44,6 @@ inline Robust robust(vr::Report &rep, const std::string &kase, sv bytes, const C
     {
       auto bad = [&](const char *field, sv s)
       {
-        char d[200];
-        snprintf(d, sizeof d, "%s token %s.%s: slice [%p,+%zu) is outside the input [%p,+%zu)", api, kindName(t.kind), field,
-                 (const void *)s.data(), s.size(), (const void *)in.data(), in.size());
         // addresses are not deterministic: keep them out of the recorded detail
         viol("slices-inside-input", std::string(kindName(t.kind)) + "." + field,
              std::string(api) + " token " + kindName(t.kind) + "." + field + " of size " + std::to_string(s.size()) + " lies outside the input buffer");
